@@ -377,10 +377,13 @@ LEVEL_TEXT = ('Partial. Proved on the tables regenerated from akn_text.xsl and a
               'backslash first, then exactly the five two-character markers, each of which is a literal of the grammar; and for EVERY string s, over the '
               'Gallina model of escape-inlines with the chain regenerated from the stylesheet: the parser\'s unescape reads escape-inlines(s) back as s '
               '(line breaks as spaces), and, read with the grammar\'s escape semantics, the result contains no two consecutive unescaped * / _ { }, so '
-              'none of ** // __ {{ }} can open or close an inline (C06_escape_inlines_lossless, C06_escape_inlines_no_live_marker). The string '
+              'none of ** // __ {{ }} can open or close an inline (C06_escape_inlines_lossless, C06_escape_inlines_no_live_marker); and the chain through the '
+              'grammar regenerated from akn.peg and the dict stage: for every non-empty string of scalar values, anywhere on a line of any input, inline+ '
+              'reads escape-inlines(s) up to the line end and to_dict turns that run into text nodes only, whose values spell s again - escaped text '
+              'cannot become inline markup (C06_escaped_text_parses_as_text). The string '
               'templates are modelled in Gallina (Model/Unparse.v) and tied to the stylesheet by the xslstr stage. That escaped text re-parses as the same '
               'text is decided by the oracles on the implementation: exhaustive strings of up to 3 atoms of the adversarial alphabet x 22 text positions, '
               'every keyword x 7 block positions x 6 continuations, random poisoning of generated documents, elements without syntax (no text dropped), '
               'attribute values, unparse leaves its argument unmodified and does not raise.')
 LEVEL_NOTE = 'Trusted: Coq kernel (vm_compute table checks); translator of the stylesheet tables; hand model of the string templates tied by sampling; libxslt and element templates exercised, not modelled.'
-TECHNIQUE = 'Rocq proof (escape tables cover the generated grammar; escape-inlines lossless and marker-free for all strings, by a unit-level invariant through the six replace passes) + Gallina model of the stylesheet string templates run differentially + exhaustive small-string x position oracle'
+TECHNIQUE = 'Rocq proof (escape tables cover the generated grammar; escape-inlines lossless and marker-free for all strings, by a unit-level invariant through the six replace passes; symbolic execution of the PEG interpreter on the generated grammar with a static first-character analysis of inline_marker) + Gallina model of the stylesheet string templates run differentially + exhaustive small-string x position oracle'
